@@ -26,12 +26,12 @@ CLS = "gmlc::concurrency::SearchableObjectHolder"
 
 def run(ctx):
     ctx.rule("C17.guard", "A3: objectMap and typeMap are only touched with mapLock held (blocking RAII)", floor=30)
-    check_guarded_fields(ctx, "C17.guard", CLS)
+    ctx.step(check_guarded_fields, ctx, "C17.guard", CLS)
     fns = [f for f in ctx.fb.functions() if f.file.endswith("/SearchableObjectHolder.hpp")]
-    c13.uaf(ctx, "C17.iter", fns, floor=10)
-    value(ctx)
-    pair(ctx)
-    common.raii_only(ctx, "C17.raii", ["SearchableObjectHolder.hpp"], floor=10)
+    ctx.step(c13.uaf, ctx, "C17.iter", fns, floor=10)
+    ctx.step(value, ctx)
+    ctx.step(pair, ctx)
+    ctx.step(common.raii_only, ctx, "C17.raii", ["SearchableObjectHolder.hpp"], floor=10)
 
 
 def value(ctx):
